@@ -23,15 +23,19 @@ PATH = os.path.join(os.path.dirname(os.path.dirname(os.path.abspath(__file__))),
 
 
 def load(path=PATH):
+    """The committed file; XPMC_FINDINGS_EXTRA (development only, never set by registered commands) may name
+    further ':'-separated files of proposed entries so a draft predicate can be tried before it is committed."""
     out = []
-    if not os.path.exists(path):
-        return out
-    with open(path) as f:
-        for line in f:
-            line = line.strip()
-            if not line or line.startswith("#"):
-                continue
-            out.append(json.loads(line))
+    paths = [path] + [p for p in os.environ.get("XPMC_FINDINGS_EXTRA", "").split(":") if p]
+    for pth in paths:
+        if not os.path.exists(pth):
+            continue
+        with open(pth) as f:
+            for line in f:
+                line = line.strip()
+                if not line or line.startswith("#"):
+                    continue
+                out.append(json.loads(line))
     return out
 
 
